@@ -210,7 +210,8 @@ FAM_LOOPS = ["while_true", "while_cond", "while_const", "for"]
 FAM_FORMS = ["if_else", "else_if", "match_default", "match_nodefault"]
 FAM_TRAIL = ["none", "simple", "return"]
 FAM_EXITS = ["return", "break", "continue", "fall"]
-FAM_COMBOS = [(lk, dep, form) for lk in FAM_LOOPS for dep in (1, 2, 3) for form in FAM_FORMS]
+# `while true` twice: it is the only loop kind that can be left through `break` alone
+FAM_COMBOS = [(lk, dep, form) for dep in (1, 2, 3) for form in FAM_FORMS for lk in FAM_LOOPS + ["while_true"]]
 
 def family_body(rng, idx):
     """returns (body, tag dict)"""
@@ -786,7 +787,7 @@ def main(run):
             if fn.endswith(".json"):
                 j = json.load(open(os.path.join(cdir, fn)))
                 bodies.append((_tolist(j["body"]), True, "corpus"))
-    nfam = (len(FAM_COMBOS) * 6) if thorough else (len(FAM_COMBOS) * 3) // 2        # 72 per quick run: every combo at least once
+    nfam = (len(FAM_COMBOS) * 6) if thorough else (len(FAM_COMBOS) * 3) // 2        # 90 per quick run: every combo at least once
     fam0 = run.rng.randrange(len(FAM_COMBOS) * 3)
     for i in range(nfam):
         b, tag = family_body(run.rng, fam0 + i)
